@@ -1119,6 +1119,9 @@ class TransformSet:
             to_instrument=captures,
             set_conformer=self.set_conformer,
         )
+        # This helper shares its code with the target function once the code
+        # is installed: it must not count when resolving a code reference
+        transformed.__ptera_discard__ = True
         return self._register(captures, transformed)
 
 
